@@ -37,6 +37,11 @@ func (e *kvElection) watchLoop(ctx context.Context) {
 		case <-ctx.Done():
 			return
 		case entry, ok := <-watcher.Updates():
+			// select picks at random among ready cases: once the election is
+			// stopped no event may start new store operations.
+			if ctx.Err() != nil {
+				return
+			}
 			if !ok {
 				log := e.getLogger()
 				log.Debug("watch_closed",
@@ -51,6 +56,9 @@ func (e *kvElection) watchLoop(ctx context.Context) {
 			}
 			e.handleWatchEvent(entry)
 		case <-checkTicker.C:
+			if ctx.Err() != nil {
+				return
+			}
 			// Periodic check: if we're a follower and key doesn't exist, trigger re-election
 			// This handles cases where NATS watchers don't send deletion events
 			if !e.IsLeader() {
